@@ -56,7 +56,11 @@ func main() {
 	case "fault":
 		err = famFault(w, *seed, *n)
 	case "history":
-		err = famHistory(w, *seed, *n)
+		if *mode == "tree" {
+			err = famHistoryTree(w, *seed, *n)
+		} else {
+			err = famHistory(w, *seed, *n)
+		}
 	case "codec":
 		err = famCodec(w, *seed, *n)
 	case "crash":
